@@ -397,6 +397,9 @@ func ruleC20(p *Prog, r *Result) {
 			return false, "a non-file argument aborts the wrapper"
 		}
 		for _, e := range pa.Effects {
+			if len(e.Loops) == 0 {
+				continue // before the loop over the arguments
+			}
 			if e.Kind == "elemset" {
 				return false, "a non-file argument is rewritten"
 			}
@@ -409,6 +412,15 @@ func ruleC20(p *Prog, r *Result) {
 	pr.all("a bkl file argument is replaced, in place, by a temp file holding its evaluated layers in the named format", selectPaths(iter, func(pa *Path) bool { return guardPol(pa, "err", fm, nil) == -1 && pa.End == "iter" }),
 		"MergeFileLayers(realPath); OutputToFile(tmp, format); args[i] = tmp.Name()", func(pa *Path) (bool, string) {
 			realPath, format := mResOf(0, fm), mResOf(1, fm)
+			fresh := false
+			for _, e := range pa.Effects {
+				if e.Callee == "bkl.New" && len(e.Loops) > 0 {
+					fresh = true
+				}
+			}
+			if !fresh {
+				return false, "the parser that evaluates this argument is not created for it (no bkl.New in the iteration): a parser shared between arguments accumulates the layers of earlier arguments into later ones"
+			}
 			if !hasCallEffect(pa, "bkl.(*Parser).MergeFileLayers", mResOf(0, mCall("bkl.New")), realPath) {
 				return false, "the layers merged are not those of the file the argument resolves to"
 			}
